@@ -435,3 +435,78 @@ mod tests {
         }
     }
 }
+
+#[cfg(futures_intrusive_verif)]
+impl<T> HeapNode<T> {
+    /// Returns the raw `[parent, prev, next, first_child]` links (0 = None)
+    pub fn verif_links(&self) -> [usize; 4] {
+        [
+            self.parent.map_or(0, |p| p.as_ptr() as usize),
+            self.prev.map_or(0, |p| p.as_ptr() as usize),
+            self.next.map_or(0, |p| p.as_ptr() as usize),
+            self.first_child.map_or(0, |p| p.as_ptr() as usize),
+        ]
+    }
+}
+
+#[cfg(futures_intrusive_verif)]
+unsafe fn verif_walk_node<T>(
+    node: NonNull<HeapNode<T>>,
+    depth: u32,
+    budget: &mut usize,
+    func: &mut dyn FnMut(&HeapNode<T>, u32),
+) -> Result<(), &'static str> {
+    if *budget == 0 {
+        return Err("heap: more nodes than the walk limit (cycle?)");
+    }
+    *budget -= 1;
+    let node_ref = &*(node.as_ptr() as *const HeapNode<T>);
+    func(node_ref, depth);
+    let mut prev: Option<NonNull<HeapNode<T>>> = None;
+    let mut current = node_ref.first_child;
+    while let Some(child) = current {
+        let child_ref = &*(child.as_ptr() as *const HeapNode<T>);
+        if child_ref.parent != Some(node) {
+            return Err("heap: child.parent is not the parent");
+        }
+        if child_ref.prev != prev {
+            return Err("heap: child.prev is not the left sibling");
+        }
+        verif_walk_node(child, depth + 1, budget, func)?;
+        prev = current;
+        current = child_ref.next;
+    }
+    Ok(())
+}
+
+#[cfg(futures_intrusive_verif)]
+impl<T> PairingHeap<T> {
+    /// Returns the raw root link (0 = None)
+    pub fn verif_root(&self) -> usize {
+        self.root.map_or(0, |p| p.as_ptr() as usize)
+    }
+
+    /// Visits all nodes of the heap in pre-order without modifying anything.
+    /// Checks the consistency of the links along the way and visits at most
+    /// `limit` nodes.
+    pub fn verif_walk(
+        &self,
+        limit: usize,
+        func: &mut dyn FnMut(&HeapNode<T>, u32),
+    ) -> Result<(), &'static str> {
+        let mut budget = limit;
+        match self.root {
+            None => Ok(()),
+            Some(root) => unsafe {
+                let root_ref = &*(root.as_ptr() as *const HeapNode<T>);
+                if root_ref.parent.is_some()
+                    || root_ref.prev.is_some()
+                    || root_ref.next.is_some()
+                {
+                    return Err("heap: root has parent or sibling links");
+                }
+                verif_walk_node(root, 0, &mut budget, func)
+            },
+        }
+    }
+}
